@@ -137,7 +137,8 @@ class AnsiDecoder:
         _Style = Style
         text = Text()
         append = text.append
-        line = line.rsplit("\r", 1)[-1]
+        # text up to a carriage return is overwritten by what follows - unless nothing does (CR LF line ending)
+        line = line.rstrip("\r").rsplit("\r", 1)[-1]
         for token in _ansi_tokenize(line):
             plain_text, sgr, osc = token
             if plain_text:
